@@ -37,4 +37,16 @@ PROPS = {
         "assumptions": ["core.Matches is the matching primitive of the reference model", "rule ids are disjoint between a location and its ancestors (the engine reports equal ids as an error; not judged)",
                         "actions are the constant 1 (C04 judges executions)"],
     },
+    "C07": {
+        "level": "exploration",
+        "build": "plain",
+        "tiers": tiers(6000, 45, 250000, 900),
+        "rule": "timed histories on the fake clock: facts and rules written with expiry E encoded as numeric `expires`, RFC3339 `expires`, `ttl` duration "
+                "string or numeric `ttl` (E - t0 from 1 s to 10 years, plus already-expired writes and never-expiring controls); observations "
+                "(GetFact on every id, search battery, event dispatch battery, storage dump) placed at E-1s, inside second E-1, at E, after E, "
+                "interleaved with reloads and sleeps up to 400 days; observable iff now < E, same `expires` before and after reload, purged from "
+                "storage once observed. Non-trivial: an observation involved at least one expiring item; distinct = distinct (operation, canonical model state) pairs.",
+        "components": {"real": REAL, "stub": STUB_COMMON},
+        "assumptions": ["clock runs forward only (synctest cannot step it back)", "expiry granularity is one second (the documented unit)"],
+    },
 }
